@@ -351,17 +351,24 @@ def Bag.fields (b : Bag) : Except CompileErr (List String) := do
 
 /-! ### `TreeNode.from_edges` and `Graph(inputs, node)`: from a bag to the graph the VM runs -/
 
-/-- The graph compiled for the node `o`: the leaves first, then the outputs of the edges in a topological order;
-a node's index is its position.  (`GraphCompiler._compile` for a single name whose node is `o`.) -/
+/-- the edges in a topological order (`peel`) -/
+def Bag.order (b : Bag) : List BEdge := (topoEdges b.edges).1
+def Bag.outs (b : Bag) : List BNode := b.order.map (·.out)
+/-- the nodes without an incoming edge, as far as the graph for `o` can see them -/
+def Bag.leaves (b : Bag) (o : BNode) : List BNode :=
+  (edgeNodes b.edges ++ b.inputs ++ [o]).eraseDups.filter fun n => !b.outs.contains n
+def Bag.nodeList (b : Bag) (o : BNode) : List BNode := b.leaves o ++ b.outs
+/-- a node's index in the compiled graph is its position -/
+def Bag.idx (b : Bag) (o : BNode) (n : BNode) : Nat := (b.nodeList o).idxOf n
+def mkLeaf (n : BNode) : Node := { name := n.name, edge := none, parents := [] }
+def Bag.mkEdge (b : Bag) (o : BNode) (e : BEdge) : Node :=
+  { name := e.out.name, edge := some e.edge, parents := e.ins.map (b.idx o) }
+
+/-- The graph compiled for the node `o`: the leaves first, then the outputs of the edges in a topological order.
+(`GraphCompiler._compile` for a single name whose node is `o`: `TreeNode.from_edges`, `Graph(inputs, node)`.) -/
 def Bag.compileGraph (b : Bag) (o : BNode) : Graph :=
-  let order := (topoEdges b.edges).1
-  let outs := order.map (·.out)
-  let leaves := (edgeNodes b.edges ++ b.inputs ++ [o]).eraseDups.filter fun n => !outs.contains n
-  let nodeList := leaves ++ outs
-  let idx := fun (n : BNode) => nodeList.idxOf n
-  { nodes := leaves.map (fun n => ({ name := n.name, edge := none, parents := [] } : Node)) ++
-             order.map (fun e => ({ name := e.out.name, edge := some e.edge, parents := e.ins.map idx } : Node)),
-    inputs := b.inputs.map idx, output := idx o }
+  { nodes := (b.leaves o).map mkLeaf ++ b.order.map (b.mkEdge o),
+    inputs := b.inputs.map (b.idx o), output := b.idx o o }
 
 /-! ### The hypothesis of the bag theorems, executable -/
 
